@@ -141,7 +141,7 @@ def call(f, *args):
     return ["call", f] + list(args)
 
 
-REAL_LITS = [R("1.5"), R("0.75"), I(2), R("2.5"), I(3), neg(R("1.25")), I(-4), R("10.0"), I(0)]
+REAL_LITS = [R("1.5"), R("0.75"), I(2), R("2.5"), I(3), neg(R("1.25")), I(-4), R("10.0"), I(0), R("3.14159265358979"), R("1.0000001")]
 INT_LITS = [I(1), I(2), I(3), I(5), I(-2), I(0)]
 
 
